@@ -66,6 +66,7 @@ type c17Row struct {
 	namespaced           bool // the row sits in a group with a namespace (the printed long name is longer than the declared one)
 	inHiddenParent       bool // that group is itself nested in a hidden group (the library prints such a group: it must then also measure it)
 	wide                 bool // many long choices: the description column lies beyond 64
+	optional             bool // the option's argument is optional (optional:"yes" optional-value:"dflt")
 }
 
 func c17Script(s string, script int) string {
@@ -95,7 +96,8 @@ var c17Patterns = [][]int{
 	{}, {1}, {9, 9, 9}, {10, 1, 10}, {11, 40, 1}, {40, 9, 9, 9, 9, 9}, {1, 1, 1, 1, 1, 1, 1, 1, 1, 1, 1, 1}, {9, 10, 11, 40, 9}, {40}, {40, 40}, {5, 5, 5, 5, 5, 5, 5, 5}, {10, 10, 10}, {11, 11}, {1, 40, 1}, {25, 3, 25}, {9, 1, 9, 1, 9},
 }
 
-// description: marker word, then the pattern's words; lf > 0 puts a line break after the lf-th word
+// description: marker word, then the pattern's words; lf 1, 2 puts a line break after the lf-th word, lf 3, 4 two blanks
+// after the (lf-2)-th word (as after a full stop)
 func c17Desc(marker string, pat []int, script int, lf int) string {
 	words := []string{marker}
 	for i, n := range pat {
@@ -104,8 +106,10 @@ func c17Desc(marker string, pat []int, script int, lf int) string {
 	var b strings.Builder
 	for i, w := range words {
 		if i > 0 {
-			if lf > 0 && i == lf {
+			if lf > 0 && lf <= 2 && i == lf {
 				b.WriteString("\n")
+			} else if lf > 2 && i == lf-2 {
+				b.WriteString("  ")
 			} else {
 				b.WriteString(" ")
 			}
@@ -134,6 +138,9 @@ func c17Build(key string, row c17Row, onCmd bool, wide bool, posVariant int, pat
 	u := &decl.Opt{Field: "U", Long: row.long, Short: row.short, ValueName: row.valname, Type: t}
 	if row.choices {
 		u.Choices = []string{"ab", "cd"}
+	}
+	if row.optional {
+		u.Optional, u.OptionalVal = "yes", []string{"dflt"}
 	}
 	descs["Qx"] = c17Desc("Qx", pat, dscript, lf)
 	u.Desc = descs["Qx"]
@@ -232,15 +239,17 @@ func init() {
 				}
 				for _, vn := range []string{"", "VAL", "VÄLÜ"} {
 					for _, ch := range []bool{false, true} {
-						rows = append(rows, c17Row{c17Script(ll, script), sh, vn, ch, false, false, false})
+						rows = append(rows, c17Row{c17Script(ll, script), sh, vn, ch, false, false, false, false})
 					}
 				}
 				if ll != "" {
-					rows = append(rows, c17Row{c17Script(ll, script), sh, "", false, true, false, false})
-					rows = append(rows, c17Row{c17Script(ll, script), sh, "", false, true, true, false})
-					rows = append(rows, c17Row{c17Script(ll, script), sh, "", true, true, false, false}) // nested namespaces
+					rows = append(rows, c17Row{c17Script(ll, script), sh, "", false, true, false, false, false})
+					rows = append(rows, c17Row{c17Script(ll, script), sh, "", false, true, true, false, false})
+					rows = append(rows, c17Row{c17Script(ll, script), sh, "", true, true, false, false, false}) // nested namespaces
+					rows = append(rows, c17Row{c17Script(ll, script), sh, "", false, false, false, false, true}) // optional argument, no value name
 					if script == 0 {
-						rows = append(rows, c17Row{c17Script(ll, script), sh, "LEVEL", true, false, false, true}) // very wide row
+						rows = append(rows, c17Row{c17Script(ll, script), sh, "LEVEL", true, false, false, true, false}) // very wide row
+						rows = append(rows, c17Row{c17Script(ll, script), sh, "VAL", false, false, false, false, true})  // optional argument with a value name
 					}
 				}
 			}
@@ -258,9 +267,15 @@ func init() {
 		pi := c.Choose(npat)
 		dscript := c.Choose(4)
 		pat := c17Patterns[pi]
+		if !c.Thorough && dscript >= 2 && posVariant != 0 {
+			c.Skip() // quick: the 3- and 4-byte description scripts go without a described positional
+		}
 		lf := 0
 		if len(pat) >= 2 {
-			lf = c.Choose(3) // 0 none, 1 after the marker, 2 after the first word
+			lf = c.Choose(5) // 0 none; line break 1 after the marker, 2 after the first word; two blanks 3 after the marker, 4 after the first word
+			if lf > 2 && (dscript != 0 || posVariant == 2) {
+				c.Skip() // the double blank goes with ASCII descriptions
+			}
 		}
 		maxW := 100
 		if c.Thorough {
@@ -270,7 +285,7 @@ func init() {
 		row := rows[ri]
 		key := fmt.Sprint(ri, onCmd, wide, posVariant, pi, dscript, lf)
 		c.Describe(func() interface{} {
-			return map[string]interface{}{"row": fmt.Sprintf("short=%q long=%q value-name=%q choices=%v in-namespaced-group=%v nested-in-hidden-group=%v", row.short, row.long, row.valname, row.choices, row.namespaced, row.inHiddenParent), "on_command": onCmd, "wide_neighbour": wide,
+			return map[string]interface{}{"row": fmt.Sprintf("short=%q long=%q value-name=%q choices=%v optional-argument=%v in-namespaced-group=%v nested-in-hidden-group=%v", row.short, row.long, row.valname, row.choices, row.optional, row.namespaced, row.inHiddenParent), "on_command": onCmd, "wide_neighbour": wide,
 				"positional": posVariant, "description": c17Desc("Qx", pat, dscript, lf), "width": width}
 		})
 		cb, err := c17Build(key, row, onCmd, wide, posVariant, pat, dscript, lf)
@@ -423,8 +438,8 @@ func init() {
 		ShardDepth: 4,
 		Body:       body,
 		Setup:      c17Setup,
-		Rule: "row under test: long name of 0/1/5/20 characters in {ASCII, 2-byte, 3-byte} script x short name {none, ASCII, é} x value name {none, ASCII, non-ASCII} x choices?, plus every named row inside a group with a long namespace, alone, nested in a hidden group, nested in a second namespaced group, and a row with eight long choices (column beyond 64), last of its block, on the parser or on an active command (indented) " +
-			"x neighbour row {widest of all, 1-character} x described positional {none, ASCII name, non-ASCII name} x description = marker word + word-length pattern (8 quick / 16 thorough patterns over lengths 1,5,9,10,11,25,40) in {ASCII, 2-byte, 3-byte, 4-byte (non-BMP)} script x embedded line break {none, after marker, after first word} " +
+		Rule: "row under test: long name of 0/1/5/20 characters in {ASCII, 2-byte, 3-byte} script x short name {none, ASCII, é} x value name {none, ASCII, non-ASCII} x choices?, plus rows whose argument is optional (with and without value name), plus every named row inside a group with a long namespace, alone, nested in a hidden group, nested in a second namespaced group, and a row with eight long choices (column beyond 64), last of its block, on the parser or on an active command (indented) " +
+			"x neighbour row {widest of all, 1-character} x described positional {none, ASCII name, non-ASCII name} x description = marker word + word-length pattern (8 quick / 16 thorough patterns over lengths 1,5,9,10,11,25,40) in {ASCII, 2-byte, 3-byte, 4-byte (non-BMP)} script (quick: the last two without a described positional) x embedded line break {none, after marker, after first word} or two consecutive blanks {after marker, after first word; ASCII descriptions} " +
 			"x every terminal width 1..100 (quick) / 1..300 (thorough), set with TIOCSWINSZ on a real pty whose slave is fd 0 (the library's own ioctl reads it); oracle: no panic; all descriptions (found through their marker words) start in one character column; " +
 			"every continuation line is exactly that many blanks + text; all lines valid UTF-8; joining hyphen breaks gives back the original word sequence; no description line longer than the width while width - column >= 10; distinct = distinct (column, width asserted?, script, line count)",
 		Assumptions:  []string{"columns are counted in characters (East-Asian display width is not modelled)", "descriptions contain no hyphens and no empty lines"},
